@@ -2,6 +2,7 @@
 package main
 
 import (
+	"encoding/json"
 	"flag"
 	"fmt"
 	"os"
@@ -68,11 +69,39 @@ func main() {
 		scratch = d
 		defer os.RemoveAll(d)
 	}
+	// Replay: single-Step witnesses (C01, C05, C14) are re-executed on their own;
+	// for every other property all cases are pure functions of (seed, tier), so
+	// the witness's seed and tier are restored and the workload is re-run; the
+	// replay succeeds in reproducing when the same signature fires again.
+	wantSig := ""
+	replayArg := *replay
+	if *replay != "" && !props.SingleStepReplay[*prop] {
+		b, err := os.ReadFile(*replay)
+		var doc struct {
+			Seed      int64  `json:"seed"`
+			Tier      string `json:"tier"`
+			Signature string `json:"signature"`
+		}
+		if err != nil || json.Unmarshal(b, &doc) != nil || doc.Signature == "" {
+			fmt.Println("cannot read replay file", *replay)
+			os.Exit(2)
+		}
+		*seed, *tier, wantSig = doc.Seed, doc.Tier, doc.Signature
+		replayArg = ""
+		fmt.Printf("replay: re-running %s tier=%s seed=%d, looking for signature %q\n", *prop, *tier, *seed, wantSig)
+	}
 	rep := mon.NewReport(*prop, *tier, *seed, props.Levels[*prop])
 	rep.Replay = *replay != ""
-	ctx := &props.Ctx{Tier: *tier, Seed: *seed, Replay: *replay, Self: self, Tmp: scratch, R: rep}
+	ctx := &props.Ctx{Tier: *tier, Seed: *seed, Replay: replayArg, Self: self, Tmp: scratch, R: rep}
 	fn(ctx)
 	code := rep.Finish()
+	if wantSig != "" {
+		if rep.SawSignature(wantSig) {
+			fmt.Println("replay: the violation reproduces on the current tree")
+		} else {
+			fmt.Println("replay: that signature did not fire on the current tree")
+		}
+	}
 	if *tmp == "" {
 		os.RemoveAll(scratch)
 	}
